@@ -39,7 +39,7 @@ CHECKS["C08"] = dict(
     runs=[dict(pkg="rib", harness="VfC08_flush_q", reach=["end", "pre-built"], thorough=dict(skip=True), opts=dict(only=["C08:", "C01:", "C03:"]),
                bounds="canonical pre-state: 1 next-hop, 1 group (either instance; optional backup id: missing/self/other), 1 top-level entry (either instance, optional cross-instance reference); Flush of {default}, {vrf} or both"),
           dict(pkg="rib", harness="VfC08_flush_qx", reach=["end", "pre-built"], opts=dict(only=["C08:", "C01:", "C03:"]),
-               bounds="a next-hop and a group in each instance, 2 IPv4 entries in either instance (implicit and explicit group instances); Flush of {default}, {vrf} or both"),
+               bounds="a next-hop and a group in each instance, 2 IPv4 entries in either instance (implicit and explicit group instances); Flush of {default}, {vrf} or both; THEN three symbolic operations in one instance - next-hop ADD, group ADD, group DELETE (symbolic ids) - judged against the referrers that survived the Flush (entries of the other instance still pointing into the flushed one)"),
           dict(pkg="rib", harness="VfC08_flush_big", reach=["end", "pre-built"], opts=dict(only=["C08:", "C01:", "C03:"]),
                bounds="scale: the large pre-state of VfRIB_big (16 next-hops, 8 groups, 12 top-level entries, cross-instance references, 9 held operations); Flush of {default}, {vrf} or both (VRF first); then one further symbolic next-hop / group operation"),
           dict(pkg="rib", harness="VfC08_flush_t", reach=["end", "pre-built"], quick=dict(skip=True), opts=dict(only=["C08:", "C01:", "C03:"]),
@@ -69,7 +69,7 @@ def _rib(only, quick, thorough):
     for h, b in thorough:
         rs.append(dict(pkg="rib", harness=h, reach=["end", "pre-built"], quick=dict(skip=True), opts=dict(only=only), bounds=b))
     for r in rs:
-        if r["harness"] in ("VfRIB_qo", "VfRIB_tOrder"):
+        if r["harness"] in ("VfRIB_qo", "VfRIB_tOrder", "VfRIB_q3h"):
             r["replay_attempts"] = 40   # counterexamples depend on Go's randomised map iteration order
             r["replay_candidates"] = 4
     return rs
@@ -88,20 +88,24 @@ _B["VfRIB_qo"] = "acknowledgement order: 1 next-hop, 2 held IPv4 entries (possib
 _B["VfRIB_qEnum"] = "enum-typed payload: pre-state 1 optional next-hop (encapsulate-/decapsulate-header any DEFINED number) + 1 optional group; one symbolic next-hop ADD/REPLACE/DELETE whose two header fields are ANY int32 (all 2^64 pairs, defined or not), any instance name, symbolic index"
 _B["VfRIB_qPayload"] = "extended next-hop payload: pre-state 1 optional next-hop carrying one of 13 payload shapes with schema-valid content (address, MAC, interface / subinterface reference, IP-in-IP source+destination, pushed label stack of 1-3 labels, or all of them) + 1 optional group; one symbolic next-hop ADD/REPLACE/DELETE whose payload is any of the 13 shapes with ANY content (8 schema-invalid addresses, 6 invalid MACs, any 64-bit subinterface number and labels), any instance name, symbolic index: invalid content is malformed, valid content is payload and an ADD replaces the WHOLE payload"
 _B["VfRIB_qPayloadTop"] = "extended top-level payload: 1 next-hop, 1 group, 1 optional IPv4/IPv6/label entry with an optional decapsulate-header (any defined number) / popped label stack (1-2 labels); one symbolic ADD/REPLACE/DELETE of such an entry (any 64-bit popped labels; fixed optional fields)"
-_RE = [("VfRIB_qEnum", _B["VfRIB_qEnum"]), ("VfRIB_qPayload", _B["VfRIB_qPayload"]), ("VfRIB_qPayloadTop", _B["VfRIB_qPayloadTop"])]
+_B["VfRIB_qPayloadEH"] = "encapsulation headers: pre-state 1 optional next-hop with schema-valid headers + 1 optional group; one symbolic next-hop ADD/REPLACE/DELETE carrying one MPLS header (index 0 or 255, stack of 2 labels, traffic class: ANY 64-bit numbers), one UDPv6 header with every field (ANY numbers for DSCP / ports / TTL, valid addresses), or two headers in either index order with a valid or schema-invalid source address: out-of-range content is malformed, valid content is payload replaced as a whole"
+_RE = [("VfRIB_qEnum", _B["VfRIB_qEnum"]), ("VfRIB_qPayload", _B["VfRIB_qPayload"]), ("VfRIB_qPayloadTop", _B["VfRIB_qPayloadTop"]), ("VfRIB_qPayloadEH", _B["VfRIB_qPayloadEH"])]
 _B["VfRIB_big"] = "scale: a large pre-state of concrete shape built through the API (16 next-hops, 8 two-member groups sharing next-hops, 6 IPv4 (symbolic distinct prefixes) / 4 MPLS / 2 IPv6 entries over two instances incl. cross-instance references, 6 held groups + 3 held entries), then ONE fully symbolic operation that may hit any installed or held object"
 _RS = [("VfRIB_big", _B["VfRIB_big"])]
-_RQ = [(h, _B[h]) for h in ("VfRIB_q1", "VfRIB_q2", "VfRIB_qNoFwd", "VfRIB_qx", "VfRIB_qo")]
+_B["VfRIB_q3h"] = "the stale held REPLACE of q3 next to TWO further held operations (groups waiting for a next-hop - possibly the group the REPLACE waits for - or IPv4 entries, possibly the REPLACE's own key), then one symbolic next-hop / group ADD that starts a cascade; every iteration order of the held-operation map"
+_RQ = [(h, _B[h]) for h in ("VfRIB_q1", "VfRIB_q2", "VfRIB_qNoFwd", "VfRIB_qx", "VfRIB_qo", "VfRIB_q3", "VfRIB_q3h")]
 _B["VfRIB_t1r"] = "as q1 plus a held operation (ADD or REPLACE) and optional payload fields everywhere (next-hop tag / pop-top-label, backup group, colour, metadata, weights); one symbolic operation with <=2 members"
 _B["VfRIB_t3e"] = "histories from the EMPTY two-instance RIB: THREE consecutive fully symbolic operations (next-hop / group of <=1 member / IPv4 entry; ADD/REPLACE/DELETE; any instance name)"
 _RT = [(h, _B[h]) for h in ("VfRIB_t1", "VfRIB_t1r", "VfRIB_t2", "VfRIB_tOrder")]
-_RIBNOTE = "Trusted: go/ssa, gosym, z3, the Go models of candidateRIB/MergeStructInto (validated natively by TestVfModelAgreement on the modelled fields), the reference RIB in harness/rib/vf_ref.go. Payload = key, group reference (+instance), entry metadata, decapsulate-header, popped label stack, group members/weights/backup/colour, next-hop network-instance / pop-top-label / encapsulation headers / address / MAC / interface reference / IP-in-IP / pushed label stack; encap-header lists, GRE, VNI, tunnel source address and enumerated labels in stacks are outside."
-CHECKS["C01"] = dict(runs=_rib(["C01:"], _RQ + _RE + _RS, _RT), assumptions=["pre-states are reference-closed states built by the canonical history (next-hops, groups, entries, held operations); one or two further symbolic operations"],
+_RIBNOTE = "Trusted: go/ssa, gosym, z3, the Go models of candidateRIB/MergeStructInto (validated natively by TestVfModelAgreement on the modelled fields), the reference RIB in harness/rib/vf_ref.go. Payload = key, group reference (+instance), entry metadata, decapsulate-header, popped label stack, group members/weights/backup/colour, next-hop network-instance / pop-top-label / encapsulation headers / address / MAC / interface reference / IP-in-IP / pushed label stack / MPLS and UDPv6 encapsulation headers; other encap-header kinds, GRE, VNI, tunnel source address and enumerated labels in stacks are outside."
+_FLUSH_IN_C01 = [dict(pkg="rib", harness="VfC08_flush_q", reach=["end"], thorough=dict(skip=True), opts=dict(only=["C01:"]), bounds="interleaved flushes: tables after Flush of {default}, {vrf} or both equal the fold (see C08)"),
+                 dict(pkg="rib", harness="VfC08_flush_qx", reach=["end"], opts=dict(only=["C01:"]), bounds="interleaved flushes with cross-instance references and three further operations (see C08)")]
+CHECKS["C01"] = dict(runs=_rib(["C01:"], _RQ + _RE + _RS, _RT) + _FLUSH_IN_C01, assumptions=["pre-states are reference-closed states built by the canonical history (next-hops, groups, entries, held operations); one or two further symbolic operations"],
     level_text="Differential bounded symbolic execution of the real RIB (AddEntry/DeleteEntry and everything below) against a reference fold of the acknowledged operations: after every operation the real tables equal the fold, for every value of the symbolic keys/payloads/instance names.", level_note=_RIBNOTE)
 CHECKS["C02"] = dict(runs=_rib(["C02:"], _RQ + _RS, _RT), assumptions=["as C01"],
     level_text="Same exploration as C01, checking that every acknowledgement happened in a state where the operation was valid and resolvable, that held operations are kept exactly while unresolvable, for every order of the held-operation walk (thorough).", level_note=_RIBNOTE)
 CHECKS["C03"] = dict(runs=_rib(["C03:"], _RQ + _RS, _RT) + [dict(pkg="rib", harness="VfC08_flush_q", reach=["end"], thorough=dict(skip=True), opts=dict(only=["C03:"]), bounds="reference counters after Flush (see C08)"),
-                                                    dict(pkg="rib", harness="VfC08_flush_qx", reach=["end"], thorough=dict(skip=True), opts=dict(only=["C03:"]), bounds="reference counters after Flush, entries and groups in both instances (see C08)"),
+                                                    dict(pkg="rib", harness="VfC08_flush_qx", reach=["end", "post-delete-refused"], opts=dict(only=["C03:"]), bounds="reference counters after Flush, entries and groups in both instances, and the verdict of a group DELETE after re-programming (see C08)"),
                                                     dict(pkg="rib", harness="VfC08_flush_big", reach=["end", "pre-built"], opts=dict(only=["C03:"]), bounds="reference counters after Flush of the large pre-state and one further operation (see C08)"),
                                                     dict(pkg="rib", harness="VfC08_flush_t", reach=["end"], quick=dict(skip=True), opts=dict(only=["C03:"]), bounds="reference counters after Flush (see C08)")],
     assumptions=["as C01"],
@@ -127,7 +131,7 @@ CHECKS["C06"] = dict(
                bounds="real Server.Modify (3 goroutines) on [params, election, ADD] followed at once by a half-close; every schedule with up to 2 pre-emptive context switches at synchronisation points")]
          + [dict(pkg="server", harness="VfC06_manyHeld300", reach=["end", "pre-built", "resolved-one"], validate=2, opts=dict(maxsteps=600000000),
                  bounds="scale: 300 held operations (groups waiting for distinct next-hops), then one symbolic operation of any kind that may resolve any one of them")]
-         + _rib(["C06:", "C02:no-held-operation-is-resolvable", "C02:held-operation-kept"], [(h, _B[h]) for h in ("VfRIB_q2", "VfRIB_q3", "VfRIB_qx2", "VfRIB_big")], _RT),
+         + _rib(["C06:", "C02:no-held-operation-is-resolvable", "C02:held-operation-kept"], [(h, _B[h]) for h in ("VfRIB_q2", "VfRIB_q3", "VfRIB_q3h", "VfRIB_qx2", "VfRIB_big")], _RT),
     assumptions=["response streams are observed at doModify's result channel (the result pump of Modify forwards them unchanged; its scheduling is C10/C11's subject)"],
     level_text="Bounded symbolic execution of doModify + RIB from symbolic requests: per-id verdict counting over the emitted results, RIB-before-FIB order, and held-set bookkeeping (answered xor held) decided for all symbolic keys/references/instance names.",
     level_note=_RIBNOTE)
@@ -153,6 +157,8 @@ CHECKS["C07"] = dict(
                bounds="as getRIB_q with 2 next-hops, 2 top-level entries, a held operation (must not be reported), groups of <=2 members, slots in either instance"),
           dict(pkg="rib", harness="VfC07_getRIB_p", reach=["end", "pre-built", "all"], opts=dict(only=["C07:"]),
                bounds="extended payload: 1 next-hop with one of 13 payload shapes (address, MAC, interface / subinterface reference, IP-in-IP, pushed label stack of 1-3 labels, all of them; symbolic valid content), 1 group, 1 IPv4/IPv6 entry with a decapsulate-header or 1 label entry with a popped stack of 1-2 labels; GetRIB of either instance with each of the 6 filters; every field and the ORDER of the stacks compared"),
+          dict(pkg="rib", harness="VfC07_getRIB_eh", reach=["end", "pre-built", "all"], opts=dict(only=["C07:"]),
+               bounds="encapsulation headers: 1 next-hop with an MPLS header (stack of 2, traffic class), a UDPv6 header with every field, or two headers in either index order (symbolic valid content), 1 group; GetRIB with each filter; headers matched by index, every field compared"),
           dict(pkg="rib", harness="VfC07_getHistory", reach=["end", "pre-built", "flushed", "deleted"], opts=dict(only=["C07:", "C08:"]),
                bounds="reads interleaved with changes: program next-hop(address+MAC) / group / label entry(popped stack) / IPv4 entry(decapsulate-header), Get(ALL), then nothing / Flush / DELETE of everything, then re-program under symbolic keys (equal to the old ones or not) with payloads of a different kind (interface reference + pushed stack of 3, other stack, other header), Get(ALL), Get(NEXTHOP), Get(MPLS): every Get reflects the state at its moment"),
           dict(pkg="rib", harness="VfC07_getRIB_p2", reach=["end", "pre-built", "all"], quick=dict(skip=True), opts=dict(only=["C07:"]),
@@ -160,7 +166,7 @@ CHECKS["C07"] = dict(
           dict(pkg="rib", harness="VfC07_getRIB_big", reach=["end", "pre-built", "all"], opts=dict(only=["C07:"]),
                bounds="scale: GetRIB of either instance with each of the 6 table filters on the large pre-state of VfRIB_big (held operations must not be reported)"),
           dict(pkg="server", harness="VfC07_doGet", reach=["end"], bounds="Server.Get on a scripted stream: instance selector (all / name incl. empty and unknown) x table filter (any enum number); small concrete RIB in two instances")],
-    assumptions=["PARTIAL: the reflection pipeline (protomap / ytypes / ygot) is replaced by models that carry key, group reference(+instance), metadata, members/weights/backup/colour, next-hop network-instance, pop-top-label, encapsulate-/decapsulate-header (next-hops, IPv4/IPv6 entries), next-hop ip-address, mac-address, interface-ref (interface, subinterface), ip-in-ip (source, destination), pushed label stack, label-entry popped label stack (numeric labels); the models are calibrated and compared with the real functions on random payloads (incl. schema-invalid strings and out-of-range numbers) before every run, and sample paths are replayed natively (a native failure of a C07 assertion is reported as a VIOLATION). OUTSIDE this check: encap-header lists (UDPv6 / MPLS encapsulation headers), GRE, VNI, tunnel source address, enumerated (reserved-name) labels inside stacks"],
+    assumptions=["PARTIAL: the reflection pipeline (protomap / ytypes / ygot) is replaced by models that carry key, group reference(+instance), metadata, members/weights/backup/colour, next-hop network-instance, pop-top-label, encapsulate-/decapsulate-header (next-hops, IPv4/IPv6 entries), next-hop ip-address, mac-address, interface-ref (interface, subinterface), ip-in-ip (source, destination), pushed label stack, encap-headers (index, type, MPLS label stack + traffic class, UDPv6 addresses / ports / DSCP / TTL), label-entry popped label stack (numeric labels); the models are calibrated and compared with the real functions on random payloads (incl. schema-invalid strings and out-of-range numbers) before every run, and sample paths are replayed natively (a native failure of a C07 assertion is reported as a VIOLATION). OUTSIDE this check: GRE / IPv4 / IPv6 / UDPv4 encapsulation-header kinds (fluent cannot set them), GRE, VNI, tunnel source address, enumerated (reserved-name) labels inside stacks, duplicate encap-header indices"],
     level_text="Bounded symbolic execution of GetRIB / doGet / FromGetResponses from symbolic RIB contents: scope, filter, tagging, once-only and modelled-field payload equality are decided for every symbolic key/value.",
     level_note=_RIBNOTE)
 
